@@ -98,6 +98,18 @@ def families():
             b = [(betas[t], rng.randn() * min(scale, 1e3), rng.randn(ns[t]) * scale) for t in range(T)]
             for bf in (0.0, 0.37, 1.0):
                 out.append((b, bf))
+    # repeated temperatures (the reweighter could not advance / iterations after beta reached 1) with their own evidence estimates
+    # and unequal batch sizes: each iteration stays a mixture component of its own, with its own recorded logz
+    for T, rep in ((3, (1, 2)), (4, (2, 3)), (5, (0, 4)), (4, (1, 3))):
+        ns = [3, 7, 2, 5, 4][:T]
+        betas = list(np.linspace(0.0, 1.0, T))
+        betas[rep[1]] = betas[rep[0]]
+        logzs = [0.0, -1.7, 2.9, -4.1, 0.8][:T]
+        b = [(betas[t], logzs[t], rng.randn(ns[t]) * 3.0) for t in range(T)]
+        for bf in (0.5, 1.0):
+            out.append((b, bf))
+    b = [(0.0, 0.0, rng.randn(4)), (0.6, -2.0, rng.randn(3)), (1.0, -3.5, rng.randn(6)), (1.0, -3.1, rng.randn(2)), (1.0, -3.9, rng.randn(5))]
+    out.append((b, 1.0))
     # peaked: a sample whose best term is ~800 nats above the others'
     b = [(0.0, 0.0, np.array([-3.0, -2.0, -900.0])), (1.0, -5.0, np.array([-1.0, -1000.0, 0.0, -2.0]))]
     out.append((b, 1.0))
